@@ -210,4 +210,18 @@ theorem hidden_status_field_raised_witness :
     ∧ diffLen0 (clearLeaf e (.status ["status", "kopf", "progress"] ["status", "kopf", "dummy"])) (.ok e) = some 0 := by
   decide
 
+/-! ## one storage object serving many objects: the remembering variant (seeded change C04g) -/
+
+/-- **A storage that remembers marked prefixes loses an ordinary annotation**: after an object carrying another Kopf
+    operator's marker `example.com/kopf-managed` went through, the change of the human-set annotation `example.com/team`
+    (blue → green) on an object WITHOUT any marker gives the same essence (no diff item: the update is never handled);
+    the code's policy sees exactly one item — and sees it after every history (`served_build_history_independent`). -/
+theorem remembered_prefixes_witness :
+    let marked := bodyWithAnn [("example.com/kopf-managed", .str "yes"), ("example.com/last-handled-configuration", .str "{}")]
+    let plain (team : String) := bodyWithAnn [("example.com/team", .str team)]
+    servedDiffLen rememberingDetect [marked] (plain "blue") (plain "green") = some 0
+    ∧ servedDiffLen rememberingDetect [] (plain "blue") (plain "green") = some 1
+    ∧ servedDiffLen statelessDetect [marked] (plain "blue") (plain "green") = some 1 := by
+  decide
+
 end Kopf.C04
